@@ -4,7 +4,8 @@
 # Prints one line per check: "<name> <check> rc=<0|1|2> <seconds>s"; scratch copies are removed afterwards.
 set -u
 NAME="$1"; SRC="$2"; shift 2
-ROOT=/tmp/ppgmut; S="$ROOT/$NAME"
+[[ "$SRC" != revert:* ]] && SRC="$(realpath "$SRC")"
+ROOT=${MUTROOT:-/tmp/ppgmut}; S="$ROOT/$NAME"
 rm -rf "$S"; mkdir -p "$S/verif"
 rsync -a --exclude target --exclude .git /repo/ "$S/repo/"
 if [[ "$SRC" == revert:* ]]; then
